@@ -791,6 +791,42 @@ func canSeeRepository(user meta2.User, repository string) bool {
 	return user.AuthorizeDatabase(originql.ReadPrivilege, repository) || user.AuthorizeDatabase(originql.WritePrivilege, repository)
 }
 
+// requireRepositoryDataRead refuses the request unless authentication is disabled or the user may read the
+// repository, the rule a SELECT on the database follows.
+func (h *Handler) requireRepositoryDataRead(w http.ResponseWriter, user meta2.User, repository string, op string) bool {
+	if !h.Config.AuthEnabled {
+		return true
+	}
+	if user == nil {
+		h.httpError(w, "error authorizing "+op+": create admin user first or disable authentication", http.StatusForbidden)
+		return false
+	}
+	if !user.AuthorizeDatabase(originql.ReadPrivilege, repository) {
+		h.httpError(w, fmt.Sprintf("error authorizing %s: %q user is not authorized to read from repository %q", op, user.ID(), repository), http.StatusForbidden)
+		h.Logger.Error("not authorized", zap.String("op", op), zap.String("userID", user.ID()))
+		return false
+	}
+	return true
+}
+
+// requireRepositoryWrite refuses the request unless authentication is disabled or the user may write to the
+// repository, the rule serveWrite follows for a database.
+func (h *Handler) requireRepositoryWrite(w http.ResponseWriter, user meta2.User, repository string, op string) bool {
+	if !h.Config.AuthEnabled {
+		return true
+	}
+	if user == nil {
+		h.httpError(w, fmt.Sprintf("user is required to write to repository %q", repository), http.StatusForbidden)
+		return false
+	}
+	if err := h.WriteAuthorizer.AuthorizeWrite(user.ID(), repository); err != nil {
+		h.httpError(w, fmt.Sprintf("error authorizing %s: %q user is not authorized to write to repository %q", op, user.ID(), repository), http.StatusForbidden)
+		h.Logger.Error("not authorized", zap.String("op", op), zap.String("userID", user.ID()), zap.Error(err))
+		return false
+	}
+	return true
+}
+
 func (h *Handler) serveBackupRun(w http.ResponseWriter, r *http.Request, user meta2.User) {
 	// Check authorization.
 	if ok := h.checkAuth(w, r, user); !ok {
